@@ -27,7 +27,7 @@ def short_cfg(cfg):
         return d
     return {'levels': [{'mws': [mw(m) for m in l['mws']], 'resources': l['resources']} for l in cfg['levels']],
             'prefix_bindings': [l.get('prefix_bindings') or [] for l in cfg['levels'][:-1]],
-            'build_via_add': bool(cfg.get('build_via_add')), 'decoys': cfg['route'].get('decoys') or [], 'resp_flavour': cfg.get('resp_flavour') or {},
+            'build_via_add': bool(cfg.get('build_via_add')), 'siblings': [[m['mid'] for m in sb['mws']] + (['embedded'] if sb.get('embedded') else []) for sb in (cfg['route'].get('siblings') or [])], 'decoys': cfg['route'].get('decoys') or [], 'resp_flavour': cfg.get('resp_flavour') or {},
             'route': {'bindings': cfg['route']['bindings'], 'resources': cfg['route']['resources'],
                       'mws': [mw(m) for m in cfg['route']['mws']], 'endpoint': f(cfg['route']['endpoint']),
                       'render': f(cfg['route'].get('render')), 'methods': cfg['route'].get('methods')},
@@ -151,7 +151,7 @@ def evaluate(cfg, requests=('hit', 'hit2', '404', '405'), want=('C01', 'C02', 'C
         tok_n[0] += 1
         tok = 't%d' % tok_n[0]
         all_b = spies.prefix_binding_names(cfg) + list(cfg['route']['bindings'])
-        n_decoys = len(cfg['route'].get('decoys') or [])
+        n_decoys = len(cfg['route'].get('decoys') or []) + sum(1 for _ in (cfg['route'].get('siblings') or []))
         if kind in ('hit', 'hit2'):
             vals = {b: ('v%d_%s' % (tok_n[0], b)) for b in all_b}
             path, method, view = spies.request_path(cfg, vals), 'GET', route_view
